@@ -58,3 +58,25 @@ package p2c
 //@   ensures [lower-load-wins-b] c2 != nil && c1 != c2 && l1 <= l2 && now - old(c2.pick) <= 1000000000 ==> result == c1
 //@   ensures [stamped] result.pick == now
 //@   ensures [loads-of] c2 != nil ==> calls(c1.load) >= 1 && calls(c2.load) >= 1 && arg(load, 0, 1) == c1 && arg(load, 0, 2) == c2
+
+// Pick: no connection => ErrNoSubConnAvailable; one or two => choose among exactly those; three or more => two
+// DIFFERENT connections are sampled, resampling (at most pickTimes rounds) stops early only when BOTH sampled
+// connections are healthy, and choose decides between the last pair. The chosen connection's in-flight and request
+// counters go up by one and its Done callback is built for it.
+//@ func (*p2cPicker).Pick
+//@   prop C14
+//@   opaque choose, buildDoneFunc
+//@   requires p != nil && p.r != nil && forall(j, 0, len(p.conns), p.conns[j] != nil)
+//@   let n = len(p.conns)
+//@   let ia = ret(Intn, 0, 1)
+//@   let ib = ite(ret(Intn, 0, 2) >= ia, ret(Intn, 0, 2) + 1, ret(Intn, 0, 2))
+//@   loop 1 invariant 0 <= i && i <= 3 && (i == 0 || node1 != nil && node2 != nil)
+//@   loop 1 iteration-ensures [resamples-two-different] calls(Intn) == 2 && arg(Intn, 1, 1) == n && arg(Intn, 1, 2) == n - 1 && ia != ib && node1 == p.conns[ia] && node2 == p.conns[ib] && i == at_head(i) + 1
+//@   loop 1 iteration-ensures [resamples-only-when-one-is-unhealthy] !(node1.success > 500 && node2.success > 500)
+//@   ensures [none] n == 0 ==> result1 == balancer.ErrNoSubConnAvailable && calls(choose) == 0
+//@   ensures [single] n == 1 ==> calls(p.choose, p.conns[0], nil) == 1
+//@   ensures [pair] n == 2 ==> calls(p.choose, p.conns[0], p.conns[1]) == 1
+//@   ensures [early-stop-needs-both-healthy] n >= 3 && local(i) < 3 ==> calls(healthy) == 2 && ret(healthy, 0, 1) && ret(healthy, 0, 2) && arg(healthy, 0, 1) == p.conns[ia] && arg(healthy, 0, 2) == p.conns[ib] && ia != ib && calls(p.choose, p.conns[ia], p.conns[ib]) == 1
+//@   ensures [sampled-pair-decided-by-choose] n >= 3 ==> calls(choose) == 1 && arg(choose, 1) != nil && arg(choose, 2) != nil
+//@   ensures [chosen-accounted] n > 0 ==> result1 == nil && result0.SubConn == ret(choose).conn && ret(choose).inflight == old(ret(choose).inflight) + 1 && ret(choose).requests == old(ret(choose).requests) + 1 && calls(p.buildDoneFunc, ret(choose)) == 1
+//@   ensures [under-lock] calls(on("lock", p.lock)) == 1 && calls(on("unlock", p.lock)) == 1
